@@ -8,6 +8,7 @@ CONSTANTS
   MaxHard = 1
   MaxPop = 1
   PopClasses = 3
+  AttrClasses = 3
   B1 = 4
   B2 = 4
   B3 = 2
@@ -18,6 +19,7 @@ CONSTANTS
   BFn = 4
   EmitAllUpTo = 1
   Sel = 40
+  CondSel = 6
   KeepGoing = TRUE
 INVARIANT Inv
 CHECK_DEADLOCK FALSE
